@@ -547,13 +547,206 @@ fn cmd_seq(a: &HashMap<String, String>) {
     out.flush().unwrap();
 }
 
+// ------------------------------------------------------------------------------------------
+// rep: histories of Reporter.tla through a real MetricReporter
+// ------------------------------------------------------------------------------------------
+use metrique_metricsrs::MetricReporter;
+use metrique_writer_core::sink::FlushWait;
+use metrique_writer_core::AnyEntrySink;
+use std::sync::Mutex;
+use std::time::{Duration, Instant};
+
+#[derive(Clone)]
+enum SinkEv {
+    Entry(Vec<Item>),
+    HandleDropped,
+}
+
+/// Recording destination: every appended entry is replayed into the recording EntryWriter.
+#[derive(Clone, Default)]
+struct RecSink(Arc<Mutex<Vec<SinkEv>>>);
+
+impl AnyEntrySink for RecSink {
+    fn append_any(&self, entry: impl Entry + Send + 'static) {
+        let items = replay_entry(&entry);
+        self.0.lock().unwrap().push(SinkEv::Entry(items));
+    }
+    fn flush_async(&self) -> FlushWait {
+        FlushWait::ready()
+    }
+}
+
+impl RecSink {
+    fn entries(&self) -> usize {
+        self.0.lock().unwrap().iter().filter(|e| matches!(e, SinkEv::Entry(_))).count()
+    }
+}
+
+/// The shutdown handle given to `metrics_sink`: the reporter drops it when it has shut down.
+struct DropMark(Arc<Mutex<Vec<SinkEv>>>);
+impl Drop for DropMark {
+    fn drop(&mut self) {
+        self.0.lock().unwrap().push(SinkEv::HandleDropped);
+    }
+}
+
+fn rep_keys() -> Vec<(&'static str, KeyDef)> {
+    let l = |v: &[(&str, &str)]| v.iter().map(|(a, b)| (a.to_string(), b.to_string())).collect::<Vec<_>>();
+    vec![
+        ("c1", KeyDef { kind: 'c', name: "reqs".into(), labels: l(&[]) }),
+        ("c2", KeyDef { kind: 'c', name: "reqs".into(), labels: l(&[("op", "get")]) }),
+        ("g1", KeyDef { kind: 'g', name: "temp".into(), labels: l(&[("az", "1")]) }),
+        ("h1", KeyDef { kind: 'h', name: "lat".into(), labels: l(&[("op", "get"), ("az", "1")]) }),
+    ]
+}
+
+fn item_key(keys: &[(&'static str, KeyDef)], it: &Item) -> &'static str {
+    keys.iter()
+        .find(|(_, k)| k.kind.to_string() == it.kind && k.name == it.name && k.labels == it.dims)
+        .map(|(id, _)| *id)
+        .unwrap_or("?")
+}
+
+const STEP_BUDGET: Duration = Duration::from_secs(10);
+
+fn replay_reporter(id: usize, b: &J, interval: Duration) -> J {
+    let keys = rep_keys();
+    let key = |id: &str| keys.iter().find(|(k, _)| *k == id).map(|(_, k)| k.clone()).unwrap_or_else(|| panic!("tool: key {id}"));
+    let rt = tokio::runtime::Builder::new_current_thread().enable_time().build().expect("tool: runtime");
+    let sink = RecSink::default();
+    let (reporter, recorder) = {
+        let _g = rt.enter();
+        MetricReporter::builder()
+            .emit_zero_counters(b["emit_zero"].as_bool().unwrap())
+            .metrics_publish_interval(interval)
+            .metrics_sink((sink.clone(), DropMark(sink.0.clone())))
+            .metrics_rs_version::<dyn metrics::Recorder>()
+            .build_without_installing()
+    };
+    let mut steps_out: Vec<J> = Vec::new();
+    let mut seen = 0usize; // events of the sink already attributed to a step
+    let mut problem: Option<String> = None;
+    let mut take = |sink: &RecSink, seen: &mut usize| -> Vec<J> {
+        let g = sink.0.lock().unwrap();
+        let mut out = Vec::new();
+        for e in &g[*seen..] {
+            if let SinkEv::Entry(items) = e {
+                out.push(J::Array(
+                    items
+                        .iter()
+                        .map(|i| {
+                            let mut j = i.json();
+                            j["key"] = json!(item_key(&keys, i));
+                            j
+                        })
+                        .collect(),
+                ));
+            }
+        }
+        *seen = g.len();
+        out
+    };
+    for (i, st) in b["steps"].as_array().unwrap().iter().enumerate() {
+        match st[0].as_str().unwrap() {
+            "Inc" => metrics::with_local_recorder(&recorder, || inc(&key(st[1].as_str().unwrap()), st[2].as_u64().unwrap(), 1, id % 2 == 0)),
+            "Set" => metrics::with_local_recorder(&recorder, || set(&key(st[1].as_str().unwrap()), st[2].as_i64().unwrap())),
+            "Rec" => metrics::with_local_recorder(&recorder, || record(&key(st[1].as_str().unwrap()), 100, 1, id % 2 == 0)),
+            "Tick" => {
+                // let real time pass (only while the runtime is driven does the reporter task run)
+                // until the reporter has published at least once more
+                let n0 = sink.entries();
+                let t0 = Instant::now();
+                let ok = rt.block_on(async {
+                    loop {
+                        if sink.entries() > n0 {
+                            return true;
+                        }
+                        if t0.elapsed() > STEP_BUDGET {
+                            return false;
+                        }
+                        tokio::time::sleep(Duration::from_millis(1)).await;
+                    }
+                });
+                if !ok {
+                    problem = Some(format!("step {i}: nothing was published within {STEP_BUDGET:?} (interval {interval:?})"));
+                }
+                steps_out.push(json!({"step": i, "entries": take(&sink, &mut seen)}));
+            }
+            "Shutdown" => {
+                let ok = rt.block_on(async { tokio::time::timeout(STEP_BUDGET, reporter.shutdown()).await.is_ok() });
+                if !ok {
+                    problem = Some(format!("step {i}: shutdown() did not complete within {STEP_BUDGET:?}"));
+                }
+                steps_out.push(json!({"step": i, "entries": take(&sink, &mut seen)}));
+            }
+            op => panic!("tool: unknown op {op}"),
+        }
+        if problem.is_some() {
+            break;
+        }
+    }
+    // after shutdown() has returned: the handle was released, nothing is appended any more
+    let (handle_dropped, after_drop) = {
+        let g = sink.0.lock().unwrap();
+        let pos = g.iter().position(|e| matches!(e, SinkEv::HandleDropped));
+        (pos.is_some(), pos.map(|p| g.len() - p - 1).unwrap_or(0))
+    };
+    let mut late = 0usize;
+    if id % 16 == 0 && problem.is_none() {
+        let n0 = sink.entries();
+        rt.block_on(async { tokio::time::sleep(interval * 3).await });
+        late = sink.entries() - n0;
+    }
+    json!({"id": id, "steps": steps_out, "handle_dropped": handle_dropped, "appended_after_handle_drop": after_drop,
+           "appended_after_shutdown": late, "waited_after_shutdown": id % 16 == 0, "problem": problem})
+}
+
+fn cmd_rep(a: &HashMap<String, String>) {
+    let behaviours = Arc::new(util::read_ndjson(util::arg_str(a, "behaviours", "")));
+    let threads = util::arg_u64(a, "threads", 8) as usize;
+    let interval = Duration::from_millis(util::arg_u64(a, "interval-ms", 8));
+    let next = Arc::new(AtomicUsize::new(0));
+    let results: Arc<Mutex<Vec<(usize, J)>>> = Arc::new(Mutex::new(Vec::new()));
+    let mut hs = Vec::new();
+    for _ in 0..threads {
+        let (behaviours, next, results) = (behaviours.clone(), next.clone(), results.clone());
+        hs.push(std::thread::spawn(move || loop {
+            let id = next.fetch_add(1, Ordering::SeqCst);
+            if id >= behaviours.len() {
+                break;
+            }
+            let row = match util::catch(|| replay_reporter(id, &behaviours[id], interval)) {
+                Ok(r) => r,
+                Err(p) if p.contains("tool:") => {
+                    eprintln!("tool error in behaviour {id}: {p}");
+                    std::process::exit(2);
+                }
+                Err(p) => json!({"id": id, "steps": [], "problem": format!("panic: {p}")}),
+            };
+            results.lock().unwrap().push((id, row));
+        }));
+    }
+    for h in hs {
+        h.join().unwrap();
+    }
+    let mut rows = std::mem::take(&mut *results.lock().unwrap());
+    rows.sort_by_key(|(id, _)| *id);
+    let mut out = std::io::BufWriter::new(std::fs::File::create(util::arg_str(a, "out", "")).expect("create out"));
+    for (_, r) in rows {
+        serde_json::to_writer(&mut out, &r).unwrap();
+        out.write_all(b"\n").unwrap();
+    }
+    out.flush().unwrap();
+}
+
 fn main() {
     let (cmd, a) = util::args();
     match cmd.as_str() {
         "record" => cmd_record(&a),
         "seq" => cmd_seq(&a),
+        "rep" => cmd_rep(&a),
         _ => {
-            eprintln!("usage: mb record|seq ...");
+            eprintln!("usage: mb record|seq|rep ...");
             std::process::exit(2);
         }
     }
